@@ -506,7 +506,8 @@ func alphabet(w *World) (out []Class) {
 			}
 			continue
 		}
-		if c == "txo2" || c == "cmpctblock4" || c == "blocktxn2" || c == "idle" { // ContextOnly in the specification
+		_, isLoc := locatorVariant(c)
+		if isLoc || c == "txo2" || c == "cmpctblock4" || c == "blocktxn2" || c == "idle" { // ContextOnly in the specification
 			out = append(out, Class{c, "valid", 0})
 			continue
 		}
